@@ -4,7 +4,7 @@
    (agree) and evaluates the property on the implementation's observations against the LWW
    spec of the acknowledged history (spec_ok).
    codes: 0 agree & spec_ok, 1 differ & spec_ok, 2 differ & not spec_ok, 3 agree & not spec_ok *)
-From Verif Require Export Shard.Store C02.Spec C02.Model C02.Fast.
+From Verif Require Export Shard.Store C02.Spec C02.Model C02.Fast C02.Blocks.
 From Coq Require Import Uint63.
 Open Scope Z_scope.
 
@@ -25,7 +25,28 @@ Inductive xop :=
    and two independent polynomial digests (mod 2^61-1) of the whole result *)
 | XReadD (m tags f : name) (lo hi : Z) (asc : bool) (n : N) (first last : list tv) (d1 d2 d3 : Z).
 
-Inductive case := CHist (tsi : bool) (ops : list xop).
+(* ---- layer B cases (Blocks.v): real TSM files with chosen block boundaries, read block by
+   block through the real KeyCursor, and through the cursors that merge the cache in ---- *)
+
+(* one file, for the one key: block i holds the given timestamps; values are derived from
+   (typ, vseed, running index) as in run_vals.  [req_tombs]: the ranges the harness deleted in
+   this file; [eff_tombs]/[present]: what the opened file reports to the cursor
+   (TombstoneRange(key); whether the key still has index entries — the index drops a key whose
+   tombstones cover it completely, that is C09/C10's business and an INPUT of layer B) *)
+Inductive xfile := XF (blocks : list (list Z)) (typ vseed : N) (req_tombs eff_tombs : list (Z * Z)) (present : bool).
+
+Inductive xread :=
+(* KeyCursor(key, t, asc); Read<T>Block / Next until an empty block; None = error, panic or overrun *)
+| XBRead (t : Z) (asc : bool) (res : option (list (list tv)))
+(* the same through Read<T>ArrayBlock *)
+| XARead (t : Z) (asc : bool) (res : option (list (list tv)))
+(* engine cursor over cache values (arrival order, to be de-duplicated by Cache.Values) and
+   the KeyCursor: api 0 = array cursor with a result buffer of [buf] slots, 1 = iterator cursor *)
+| XCRead (api : N) (buf : N) (t fin : Z) (asc : bool) (cachevals : list tv) (res : option (list tv)).
+
+Inductive case :=
+| CHist (tsi : bool) (ops : list xop)
+| CBlocks (files : list xfile) (reads : list xread).
 
 (* the harness's name universe (term size is what costs in coqc): measurement "m<i>",
    tag part ",s=<a+i>", field "f<i>"; other names are written out *)
@@ -186,9 +207,70 @@ Definition run_xop (r : rstate) (x : xop) : rstate :=
       mkr (r_st r) (r_hist r) (r_keys r) (r_itab r) (r_agree r && ag) (r_spec r && sp)
   end.
 
+(* ---- layer B ---- *)
+
+Definition run_val (typ vseed i : N) : value :=
+  match typ with
+  | 0 => VFloat (4607182418800017408 + vseed * 4294967296 + i)
+  | 1 => VInt (Z.of_N (vseed * 1000003 + i))
+  | 2 => VBool (N.odd (i + vseed))
+  | 3 => VStr [118; vseed mod 256; i mod 256; i / 256]
+  | _ => VUint (vseed * 7919 + i)
+  end%N.
+
+Fixpoint mk_blocks (typ vseed i : N) (bl : list (list Z)) : list block :=
+  match bl with
+  | [] => []
+  | ts :: r => combine ts (map (run_val typ vseed) (iota (length ts) i)) :: mk_blocks typ vseed (i + N.of_nat (length ts))%N r
+  end.
+
+(* the file as the cursor sees it (model input) and as the harness made it (spec input) *)
+Definition model_file (x : xfile) : bfile :=
+  match x with XF bl typ vseed _ eff present => mkbf (if present then mk_blocks typ vseed 0 bl else []) eff end.
+Definition spec_file (x : xfile) : bfile :=
+  match x with XF bl typ vseed req _ _ => mkbf (mk_blocks typ vseed 0 bl) req end.
+
+(* the seek times the layer-B theorems are about: FileStore.locations computes t-1 / t+1 in
+   int64, which wraps at the very ends; the query API never seeks there (influxql.MinTime =
+   MinInt64+2, MaxTime = MaxInt64-1).  Outside, only model agreement is checked. *)
+Definition seek_in_domain (t : Z) (asc : bool) : bool := if asc then min_int64 <? t else t <? max_int64.
+
+Definition blocks_eqb (a b : list (list tv)) : bool := list_eqb (list_eqb tv_eqb) a b.
+Definition flatten_dir (asc : bool) (bl : list (list tv)) : list tv :=
+  concat (map (fun b => if asc then b else rev b) bl).
+
+Definition check_xread (mf sf : list bfile) (x : xread) : bool * bool :=
+  match x with
+  | XBRead t asc res | XARead t asc res =>
+      match res with
+      | None => (false, false)
+      | Some bl =>
+          (blocks_eqb (kc_blocks mf t asc) bl,
+           negb (seek_in_domain t asc) ||
+           (list_eqb tv_eqb (flatten_dir asc bl) (layerA_read sf t asc) && forallb (fun b => match b with [] => false | _ => true end) bl))
+      end
+  | XCRead _ _ t fin asc cv res =>
+      match res with
+      | None => (false, false)
+      | Some l =>
+          (list_eqb tv_eqb (cursor_read mf cv t fin asc) l,
+           negb (seek_in_domain t asc) || list_eqb tv_eqb l (layerA_cursor_read sf cv t fin asc))
+      end
+  end.
+
+Definition check_blocks (files : list xfile) (reads : list xread) : bool * bool :=
+  let mf := map model_file files in
+  let sf := map spec_file files in
+  (* the files the harness wrote are well-formed, and a key the index dropped had nothing left *)
+  let wf := forallb file_wfb sf &&
+            forallb (fun x => match x with XF _ _ _ req _ present =>
+                                present || match excl_tombs req (concat (bf_blocks (spec_file x))) with [] => true | _ => false end end) files in
+  fold_left (fun acc x => let '(a, s) := check_xread mf sf x in (fst acc && a, snd acc && s)) reads (wf, true).
+
 Definition check_case (c : case) : N :=
   match c with
   | CHist tsi ops =>
       let r := fold_left run_xop ops (mkr (Some (init tsi)) [] [] [] true true) in
       code (r_agree r) (r_spec r)
+  | CBlocks files reads => let '(a, s) := check_blocks files reads in code a s
   end.
